@@ -124,15 +124,26 @@ theorem sem (r : Re) : ∀ c, FoldRel r c → ∀ s t w, Den c s t → s.post = 
       (by rw [goItems_anyNL]; exact Sat.single_other ⟨fun _ hl => by simp at hl, fun _ hk => by simp at hk⟩)
   | cls neg rs f =>
     intro c hrel s t w hd hw
-    cases hrel
-    cases hd with
-    | @cls _ _ _ pre b post hm =>
-      have : w = [b] := by
-        simp only at hw
-        exact (List.append_cancel_right (bs := post) (by simpa using hw.symm))
-      subst this
-      refine wrap (.cls neg rs f) (fun _ _ h => by cases h) ?_
-      simpa [goItems_cls, toLower] using cls_sat neg rs _ b hm
+    cases hrel with
+    | cls =>
+      cases hd with
+      | @cls _ _ _ pre b post hm =>
+        have : w = [b] := by
+          simp only at hw
+          exact (List.append_cancel_right (bs := post) (by simpa using hw.symm))
+        subst this
+        refine wrap (.cls neg rs f) (fun _ _ h => by cases h) ?_
+        simpa [goItems_cls, toLower] using cls_sat neg rs _ b hm
+    | clsLit _ _ _ ch g f' hc =>
+      -- compiled as the literal `push` makes of the class: the item of the class IS that literal
+      cases hd with
+      | lit h =>
+        obtain ⟨x, h1, _, h3⟩ := litStep_shape _ _ _ _ h
+        have : w = x := List.append_cancel_right (hw.symm.trans h1)
+        subst this
+        refine wrap (.cls neg rs f) (fun _ _ h => by cases h) ?_
+        rw [h3, goItems_cls, clsItem_of_clsLit hc]
+        exact Sat.single_lit [ch] g
   | bol =>
     intro c hrel s t w hd hw
     cases hrel
